@@ -2,7 +2,7 @@
    bool/option/unit/list/prod/sumbool/sumor map to OCaml's; nat, N, Z, positive stay extracted inductives.
    Compiled with the output directory as working directory (8.16 has no Extraction Output Directory). *)
 Require Import Ctpg.Base.Prelude Ctpg.Model.Grammar Ctpg.Model.LRGen Ctpg.Model.Driver Ctpg.Model.Dfa
-               Ctpg.Model.RegexFront Ctpg.Model.Diag Ctpg.Valid.LRValid.
+               Ctpg.Model.RegexFront Ctpg.Model.Diag Ctpg.Valid.LRValid Ctpg.Valid.DfaValid Ctpg.Valid.SpecMatch.
 Require Extraction.
 Require Import ExtrOcamlBasic.
 Extraction Language OCaml.
@@ -11,4 +11,4 @@ Extraction "model.ml"
   run is_nonverbose sp0
   analyze_size build_expr create_lexer dfa_match dfa_match_oob expr_match
   lex_at regex_lexer parse_pattern parse_pattern_with regex_grammar_table regex_raw_grammar string_view_to_subset regex_term_f regex_rule_f
-  bucket closure_children nterm_empty nterm_first validate validate_sound no_error_symbol.
+  bucket closure_children nterm_empty nterm_first validate validate_sound no_error_symbol lexer_ok spec_longest spec_matches.
